@@ -145,7 +145,12 @@ Fixpoint p1c2_loop (path1 : list pt) (l : list pt) (io : Z) : res Z :=
     end
   end.
 Definition path1_contains_path2 (path1 path2 : list pt) : res bool :=
-  io <- p1c2_loop path1 path2 0 ;; Ok (io <=? 0).
+  io <- p1c2_loop path1 path2 0 ;;
+  if io =? 0 then
+    (* every vertex of path2 lies on path1 (or the counts balance): the midpoint of path2's bounds decides *)
+    x <- point_in_polygon (rect_midpoint (get_bounds path2)) path1 ;;
+    Ok (match x with IsOutside => false | _ => true end)
+  else Ok (io <? 0).
 
 (* ====================================================================== ExecuteInternal *)
 Section Internal.
